@@ -17,7 +17,8 @@ RULE = (
 )
 ASSUMPTIONS = [
     "40% of the evaluations walk the enumerated fault space cell by cell (index i -> cell i mod 9408: kind x package of 1-2 orders x assignment of {SUCCESS, TIMEOUT, FAILURE x 5 codes} x transport fault kind x 1..4 faulted attempts x order completed between request and response), each under one seeded schedule; the thorough tier covers every cell several times, the quick tier a prefix (40% of its evaluations); the rest is sampled (packages of 3, mixed sessions, World A)",
-    "retry budget: 1 call + 3 retries (BaseOrderPackage._max_retries)",
+    "retry budget: 1 call + 3 retries (BaseOrderPackage._max_retries), counted per package reference AND per order reference (placement instructions carrying one customerOrderRef)",
+    "8% of the evaluations are a directed family: asynchronous PLACE package of 2-3 bets, 1-7 consecutive transport faults, the order stream reporting each bet in a message of its own (partial acknowledgement between attempts)",
     "a placement is 'still possibly accepted' (PENDING allowed) when every attempt ended with a transport fault after the request had left, a TIMEOUT report, or it was placed async",
     "Betdaq execution is outside, as the property states",
 ]
